@@ -131,6 +131,14 @@ func (srv *Server) handleChannel(ctx context.Context, c *ServerChannel) {
 
 	if err != nil {
 		log.Printf("server: establish: %v\n", err)
+		// Release the connection, since nobody will serve it
+		_ = c.Close()
+		return
+	}
+
+	if c.State() != SessionStateEstablished {
+		// The session was refused (failed) during the handshake
+		_ = c.Close()
 		return
 	}
 
